@@ -41,6 +41,29 @@ def run(repo='/repo', tier='quick'):
                         okw = any(is_lit(w['r'], 0) for st in f.blocks[tb]['stmts'] for w in P.assigns_field(st, fld, '='))
                 res.check(not missing and okw, 'C17.a', '%s:%s++:wrap' % (f.name, fld), 'increment is followed by `if (%s == max_size) %s = 0` on every path' % (fld, fld),
                           'l->%s is incremented without the wrap-around test before returning: the cursor runs past the storage block' % fld, x['loc'])
+    # a computed position stored into a cursor has been through its wrap correction first
+    lst_fns = [f for n, f in sorted(db.fn.items()) if n.startswith('htp_list_array_')]
+    ncur = 0
+    for f in lst_fns:
+        for fld in ('first', 'last'):
+            for b, i, x in P.field_writes(f, fld):
+                r = strip(x.get('r')) if x['k'] == 'assign' and x['op'] == '=' else None
+                if r is None or r.get('k') != 'var' or r.get('decl') != 'local':
+                    continue
+                ncur += 1
+                V = r['name']
+                decl = [(bb, ii) for bb, ii, st in f.stmts() for d in nodes(st, lambda y: y.get('k') == 'decl') if any(v['name'] == V and 'init' in v for v in d['vars'])]
+                if not decl:
+                    res.unknown('C17.a', '%s:%s=%s:wrapped-first' % (f.name, fld, V), 'the local has no initialised declaration', x['loc'])
+                    continue
+                store = f.blocks[b]['stmts'][i]
+
+                def is_wrap_test(st, V=V):
+                    return any(f.cond_of(bb) and f.blocks[bb]['stmts'][-1] is st for bb in f.blocks) and 'max_size' in S(st) and any(v['name'] == V for v in nodes(st, lambda y: y.get('k') == 'var'))
+                ok, why = C.every_path_passes(f, decl[0], lambda st, store=store: st is store, is_wrap_test)
+                res.check(ok, 'C17.a', '%s:%s=%s:wrapped-first' % (f.name, fld, V), 'the position passes its wrap test against max_size before it is stored into the cursor',
+                          'l->%s is set from %s on a path that has not yet passed the wrap test of %s against max_size: the cursor can be left at an index >= max_size and the next push writes outside the block' % (fld, V, V), x['loc'])
+    res.floor('C17.a', 'computed positions stored into ring cursors', ncur, 1)
     # size bookkeeping
     for f, delta in ((push, '++'), (pop, '--'), (shift, '--')):
         n = 0
@@ -141,6 +164,27 @@ def run(repo='/repo', tier='quick'):
             res.check(okr, 'C17.b', 'pint:overflow-returns-error', 'overflow returns a negative error code', 'the overflow arm does not return an error', c[0]['loc'])
     dchk = [b for b in f.blocks if f.cond_of(b) and P.canon(f.cond_of(b)[0]) == ('d', '>=', 'base')]
     res.check(bool(dchk), 'C17.b', 'pint:digit-below-base', 'digits are checked against the base', 'digits are no longer checked against the base', f.loc)
+    # the whitespace-tolerant integer parser accepts the number only when the cursor has reached the end of the text
+    f = db.get('htp_parse_positive_integer_whitespace')
+    lenp = [p_['name'] for p_ in f.params if any(t in p_['t'] for t in ('long', 'int')) and '*' not in p_['t']]
+    lenp = lenp[0] if lenp else 'len'
+    nacc, badp = 0, None
+    for atoms, events, end in P.enum_paths(f, (f.entry, -1)):
+        if end[0] != 'return':
+            continue
+        v = P.ret_value(end[3])
+        if is_lit(v) and strip(v)['v'] < 0:
+            continue                                       # an error code
+        facts = [a for a, bb in atoms]
+        if any(a[0] == P.K(v) and a[1] == '<' and a[2] == '0' for a in facts):
+            continue                                       # propagates the digit parser's error
+        nacc += 1
+        # the last fact about the cursor against the length must be "cursor >= len"
+        last = [a for a in facts if a[2] == lenp and a[1] in ('<', '>=', '==', '!=')]
+        if not last or last[-1][1] != '>=':
+            badp = facts[-3:]
+    res.check(badp is None and nacc > 0, 'C17.b', 'pint-ws:accepts-only-at-end', 'every path that returns the number ends with the cursor at the end of the text (%d accepting path(s))' % nacc,
+              'htp_parse_positive_integer_whitespace can return the number while unchecked bytes remain after it (last guards: %s): "80<TAB>x" is accepted as 80' % (badp,), f.loc)
     f = db.get('htp_parse_chunked_length')
     ok = False
     for b in f.blocks:
@@ -235,4 +279,43 @@ def run(repo='/repo', tier='quick'):
                   'table %s.%s is added to through %s: key ownership is inconsistent (leak or double free of keys at destroy)' % (key[0], key[1], ' and '.join(sorted(variants))), list(variants.values())[-1][0][1])
     res.floor('C17.c', 'tables with adds', len([k for k in adds if k[0] != 'local']), 4)
     res.assumptions.append('equality with an abstract sequence / multimap model on values is not decided; byte-string scan loops are covered by the guarded-read rules of C01')
+    c17d(db, res)
     return res
+
+
+def c17d(db, res):
+    """The table getters and the header/coding recognisers compare through the NUL-insensitive comparator: NUL bytes of the
+    first operand are skipped.  The scan stops as soon as the second operand is exhausted, so what is left of the first
+    operand must be skipped over as long as it is NUL *before* the two lengths are compared - otherwise "Host\\0" no
+    longer equals "host" and a lookup walks past the first match."""
+    res.rule('C17.d', 'NUL-insensitive comparison: in bstr_util_cmp_mem_nocasenorzero the NUL test of the first operand appears inside the scanning loop and again in a loop of its own (advancing only that cursor) that dominates the comparison of the cursors with the lengths')
+    f = db.get('bstr_util_cmp_mem_nocasenorzero')
+    skips = []
+    for b in f.blocks:
+        c = f.cond_of(b)
+        if not c:
+            continue
+        e = strip(c[0])
+        if e.get('k') == 'bin' and e['op'] in ('==', '!=') and is_lit(e['r'], 0) and strip(e['l']).get('k') == 'index' and strip(strip(e['l'])['idx']).get('k') == 'var':
+            skips.append((b, P.K(strip(e['l'])['base']), strip(strip(e['l'])['idx'])['name']))
+    if not skips:
+        res.violated('C17.d', 'cmp_nocasenorzero:skips-nul', 'the comparator no longer tests bytes of the first operand for NUL at all', f.loc)
+        return
+    A1, c1 = skips[0][1], skips[0][2]
+    lps = C.loops(f)
+    dom = C.dominators(f)
+    # the final decision: a condition comparing the first cursor with `==`
+    finals = [b for b in f.blocks if f.cond_of(b) and (P.canon(f.cond_of(b)[0]) or ('', '', ''))[0] == c1 and P.canon(f.cond_of(b)[0])[1] == '==']
+    res.check(bool(finals), 'C17.d', 'cmp_nocasenorzero:final-length-test', 'the verdict compares the cursor of the first operand with its length', 'no final comparison of the first cursor with the length', f.loc)
+    own = []
+    for h, body in lps:
+        has_skip = any(sb in body for sb, a, c in skips if a == A1 and c == c1)
+        writes = [(P.K(y.get('l') or y.get('e'))) for bb in body for st in f.blocks[bb]['stmts'] for y in nodes(st, lambda z: z.get('k') == 'assign' or (z.get('k') == 'un' and z['op'] in ('++', '--', '++post', '--post')))]
+        rets = any(st.get('k') == 'return' for bb in body for st in f.blocks[bb]['stmts'])
+        if has_skip and set(writes) == {c1} and not rets:
+            own.append(h)
+    inscan = [h for h, body in lps if any(sb in body for sb, a, c in skips) and h not in own]
+    res.check(bool(inscan), 'C17.d', 'cmp_nocasenorzero:skip-inside-scan', 'NUL bytes of the first operand are skipped inside the scanning loop', 'the scanning loop no longer skips NUL bytes of the first operand', f.loc)
+    ok = bool(own) and bool(finals) and all(any(h in dom[fb] for h in own) for fb in finals)
+    res.check(ok, 'C17.d', 'cmp_nocasenorzero:trailing-nul-skipped', 'a loop that only advances %s over NUL bytes dominates the final length comparison' % c1,
+              'after the scan nothing skips the NUL bytes that are left of the first operand before %s is compared with its length: a key or value with trailing NUL bytes no longer compares equal (htp_table_get_c misses the first match; "gzip\\0" is not recognised)' % c1, f.loc)
